@@ -185,6 +185,8 @@ type World struct {
 	StoreKind     string
 	StorePeriod   time.Duration
 	RenewDeadline time.Duration
+	// IDPrefix, when set, maps a gateway's node name to its --client-id-prefix.
+	IDPrefix func(name string) string
 
 	leases   *leaseStore
 	GWFake   *gatewayfake.Clientset
@@ -302,7 +304,11 @@ func (w *World) Crash(i int) {
 // AddGateway starts the real client set of a gateway instance.
 func (w *World) AddGateway(name string) *Gateway {
 	ctx, cancel := context.WithCancel(context.Background())
-	cs := clientsets.NewClientSetsWithRestConfig(ctx, w.service, name, &rest.Config{Transport: w.Net.RoundTripper(name)})
+	prefix := name
+	if w.IDPrefix != nil {
+		prefix = w.IDPrefix(name) // what the operator passed as --client-id-prefix
+	}
+	cs := clientsets.NewClientSetsWithRestConfig(ctx, w.service, prefix, &rest.Config{Transport: w.Net.RoundTripper(name)})
 	g := &Gateway{Name: name, CS: cs, cancel: cancel, Alive: true}
 	w.Gateways = append(w.Gateways, g)
 	return g
